@@ -51,8 +51,15 @@ MUTANTS = [
     {"id": "C12-add-watch-without-lock", "prop": "C12", "edits": [
         R(REF, "        with self._lock:\n            self._watches = self._watches.assoc(k, wf)\n            return self",
           "        if True:\n            self._watches = self._watches.assoc(k, wf)\n            return self")]},
+    {"id": "C12-noop-update-not-notified", "prop": "C12", "edits": [
+        R(ATOM, "        if self._compare_and_set(old, new):\n            self._notify_watches(old, new)\n            return True",
+          "        if self._compare_and_set(old, new):\n            if new is not old:\n                self._notify_watches(old, new)\n            return True")]},
     # ---- C13
     {"id": "C13-revert-F5-delay-lock", "prop": "C13", "revert": "2b432f4"},
+    {"id": "C13-cancel-reports-true-always", "prop": "C13", "edits": [
+        R(FUT, "    def cancel(self) -> bool:\n        return self._future.cancel()", "    def cancel(self) -> bool:\n        self._future.cancel()\n        return True")]},
+    {"id": "C13-promise-call-overwrites", "prop": "C13", "edits": [
+        R(PROMISE, "    __call__ = deliver\n", "    def __call__(self, value):\n        with self._condition:\n            self._is_delivered = True\n            self._value = value\n            self._condition.notify_all()\n")]},
     {"id": "C13-revert-F9-future-timeout", "prop": "C13", "revert": "528fb13"},
     {"id": "C13-promise-notify-one", "prop": "C13", "edits": [
         R(PROMISE, "self._condition.notify_all()", "self._condition.notify()")]},
@@ -158,6 +165,8 @@ MUTANTS = [
           "        self._hierarchy: IRef[IPersistentMap] = hierarchy or runtime.Var.find_safe(\n            _GLOBAL_HIERARCHY_SYM\n        )\n        if hierarchy is None:\n            from basilisp.lang import atom as _atom\n            self._hierarchy = _atom.Atom(self._hierarchy.deref())\n")]},
     {"id": "C18-custom-default-ignored", "prop": "C18", "edits": [
         R(MULTI, "                best_method = self._methods.val_at(self._default)", "                from basilisp.lang import keyword as _kw\n                best_method = self._methods.val_at(_kw.keyword(\"default\"))")]},
+    {"id": "C18-isa-vectors-some-instead-of-every", "prop": "C18", "edits": [
+        R(CORE, "                 (every? identity)))\n       (contains? (ancestors h tag) parent)", "                 (some identity)))\n       (contains? (ancestors h tag) parent)")]},
     {"id": "C18-underive-keeps-descendants", "prop": "C18", "edits": [
         R(CORE, "                   (make-hierarchy))))))\n\n;;;;;;;;;;;;;;;;;;\n;; Multimethods ;;", "                   (assoc (make-hierarchy) :descendants (:descendants h)))))))\n\n;;;;;;;;;;;;;;;;;;\n;; Multimethods ;;")]},
     {"id": "C18-derive-forgets-transitive-ancestors", "prop": "C18", "edits": [
